@@ -3,6 +3,10 @@
 //! input line:  <role> <framing> <level> <token> <token> ...
 //!   token   = <chunk-hex>  one scripted read chunk
 //!           | @L<afp>      change the decode level now (ServerCommand::ChangeDecoding / Channel::set_decode_level)
+//!           | @Wb          from now on the transmit path is full: the next write is parked (a peer that does not read)
+//!           | @Wa<k>       the next write call is taken only up to k bytes
+//!           | @R           the transmit path has room again (releases a parked write)
+//!                          (client: write tokens before the first chunk take effect before the request is sent)
 //!   role    = server | client
 //!   framing = tcp | rtu
 //!   level   = three digits a f p : app 0..3, frame 0..2, phys 0..2  (e.g. 000 = nothing, 322 = everything)
@@ -12,7 +16,7 @@
 //! The session is fed the chunks (one scripted chunk per read), settled, then probed: the task
 //! must still honour its command queue (a decode-level change is accepted or the session has
 //! ended with an error) and a shutdown request must end it.
-use crate::wire::{settle, Wire};
+use crate::wire::{settle, Wire, WriteStep};
 use rodbus::client::*;
 use rodbus::server::*;
 use rodbus::verif::*;
@@ -143,6 +147,8 @@ async fn run_server(framing: Framing, level: DecodeLevel, tokens: Vec<Token>) ->
             Token::Level(l) => {
                 let _ = tx.send(ServerCommand::ChangeDecoding(*l)).await;
             }
+            Token::Write(w) => wire.script_writes(&[*w]),
+            Token::Release => wire.release_write(),
         }
         settle().await;
     }
@@ -184,6 +190,8 @@ async fn run_server(framing: Framing, level: DecodeLevel, tokens: Vec<Token>) ->
 pub enum Token {
     Chunk(Vec<u8>),
     Level(DecodeLevel),
+    Write(WriteStep),
+    Release,
 }
 
 fn panic_text(e: tokio::task::JoinError) -> String {
@@ -209,6 +217,13 @@ async fn run_client(framing: Framing, level: DecodeLevel, tokens: Vec<Token>) ->
     });
     let _ = channel.enable().await;
     settle().await;
+    let lead = tokens.iter().take_while(|t| matches!(t, Token::Write(_))).count();
+    for t in &tokens[..lead] {
+        if let Token::Write(w) = t {
+            wire.script_writes(&[*w]);
+        }
+    }
+    let tokens = tokens[lead..].to_vec();
     // a request is outstanding while the peer's bytes arrive, then idle
     let param = RequestParam::new(UnitId::new(1), Duration::from_secs(1));
     let ch = channel.clone();
@@ -229,6 +244,8 @@ async fn run_client(framing: Framing, level: DecodeLevel, tokens: Vec<Token>) ->
                     let _ = ch2.set_decode_level(l).await;
                 });
             }
+            Token::Write(w) => wire.script_writes(&[*w]),
+            Token::Release => wire.release_write(),
         }
         settle().await;
     }
@@ -278,9 +295,18 @@ fn run_case(line: &str) -> String {
     let level = level_of(parts[2]);
     let chunks: Vec<Token> = parts[3..]
         .iter()
-        .map(|h| match h.strip_prefix("@L") {
-            Some(l) => Token::Level(level_of(l)),
-            None => Token::Chunk(crate::util::unhex(h)),
+        .map(|h| {
+            if let Some(l) = h.strip_prefix("@L") {
+                Token::Level(level_of(l))
+            } else if *h == "@Wb" {
+                Token::Write(WriteStep::Block)
+            } else if let Some(k) = h.strip_prefix("@Wa") {
+                Token::Write(WriteStep::Accept(k.parse().unwrap_or(1)))
+            } else if *h == "@R" {
+                Token::Release
+            } else {
+                Token::Chunk(crate::util::unhex(h))
+            }
         })
         .collect();
     let rt = tokio::runtime::Builder::new_current_thread()
